@@ -362,7 +362,8 @@ def _add_geom_pair(
   type1 = geom_type[geom1]
   type2 = geom_type[geom2]
 
-  if type1 > type2:
+  # same-type pairs are ordered by geom id (SAP passes geoms in sweep order, NXN in id order)
+  if type1 > type2 or (type1 == type2 and geom1 > geom2):
     pair = wp.vec2i(geom2, geom1)
   else:
     pair = wp.vec2i(geom1, geom2)
